@@ -33,7 +33,10 @@
   prints (`enc` = SerializationString(), `disp` = String()); decoding a `__pvalue` string for a known type name gives
   the leaf back.  Base64 is concrete (`b64` / `unb64`).  `String()` of floats and containers (needed only for
   non-string hash keys with rich_data=false and a consumer without complex keys) is not modelled: `V.dispOk`.
-  Object instances and object/alias type definitions are not modelled (the harness does not generate them).
+  Object instances are modelled for the object types of the harness's catalogue (`objTypes`; all attributes of type Any):
+  an instance is its type name and the entries of its init hash; construction from the named arguments is assumed to
+  give back an object with that init hash.  Type definitions that travel as Pcore::ObjectType instances are not
+  modelled (the harness runs them on the implementation only).
   Logging is ignored.  Core-only file (linked into the driver).
 -/
 namespace Pcore.Ser
@@ -71,6 +74,7 @@ inductive V where
   | sens (id : Nat) (v : V)
   | arr (id : Nat) (vs : List V)
   | hash (id : Nat) (es : List (V × V))
+  | obj (id : Nat) (tn disp : String) (attrs : List (String × V))   -- object instance: type name, String(), init hash
   deriving Repr, Inhabited
 
 /-- scalars a ValueConsumer receives through `Add` -/
@@ -229,6 +233,7 @@ def V.disp : V → String
   | .sens _ _ => sensitiveText
   | .arr _ _ => "?array"
   | .hash _ _ => "?hash"
+  | .obj _ _ d _ => d
 
 def V.isStr : V → Bool
   | .str _ => true | _ => false
@@ -309,6 +314,17 @@ def toData (c : Cfg) (level : Nat) : V → St → Ev × St
         let r := strData c 1 enc h.2
         record c (leafKey id k enc) st.ref (.hsh (h.1 ++ [r.1]), r.2)
     else strData c 1 disp st        -- unknownToStringWithWarning(1, value), outside `process`
+  | .obj id tn disp attrs, st =>
+    if c.rich then
+      -- valueToDataHash, PuppetObject: {__ptype: <type name>, <init hash entries>}
+      match seen c (.ptr id) st with
+      | some r => (.ref r, st)
+      | none =>
+        let r1 := strData c 2 "__ptype" (bump st)
+        let r2 := strData c 1 tn r1.2
+        let r3 := attrsData c attrs r2.2
+        record c (.ptr id) st.ref (.hsh (r1.1 :: r2.1 :: r3.1), r3.2)
+    else strData c 1 disp st
 
 /-- array elements: toData(1, elem) -/
 def listData (c : Cfg) : List V → St → List Ev × St
@@ -344,6 +360,15 @@ def skeyData (c : Cfg) : List (V × V) → St → List Ev × St
     let r2 := toData c 1 v r1.2
     let r3 := skeyData c es r2.2
     (r1.1 :: r2.1 :: r3.1, r3.2)
+
+/-- init hash entries of an object: toData(2, name); toData(1, value) -/
+def attrsData (c : Cfg) : List (String × V) → St → List Ev × St
+  | [], st => ([], st)
+  | (k, v) :: as, st =>
+    let r1 := strData c 2 k st
+    let r2 := toData c 1 v r1.2
+    let r3 := attrsData c as r2.2
+    (r1.1 :: r2.1 :: r3.1, r3.2)
 end
 
 /-- `NewSerializer(ctx, opts).Convert(v, consumer)` -/
@@ -359,6 +384,7 @@ def V.dispOk (c : Cfg) : V → Bool
   | .sens _ v => v.dispOk c
   | .arr _ vs => dispOkList c vs
   | .hash _ es => dispOkPairs c (!c.cplx && !c.rich && !allStrKeys es) es
+  | .obj _ _ _ as => dispOkAttrs c as
   | _ => true
 def dispOkList (c : Cfg) : List V → Bool
   | [] => true
@@ -366,6 +392,9 @@ def dispOkList (c : Cfg) : List V → Bool
 def dispOkPairs (c : Cfg) (strung : Bool) : List (V × V) → Bool
   | [] => true
   | (k, v) :: es => (if strung then k.keyDispOk else k.dispOk c) && v.dispOk c && dispOkPairs c strung es
+def dispOkAttrs (c : Cfg) : List (String × V) → Bool
+  | [] => true
+  | (_, v) :: as => v.dispOk c && dispOkAttrs c as
 end
 
 /-! ### the collector (types/basiccollector.go) -/
@@ -457,6 +486,10 @@ def lookupLast (name : String) : List (V × V) → Option V
   | (k, v) :: es =>
     if k.isKey name && !hasKey name es then some v else lookupLast name es
 
+/-- the object types the loader knows (the harness's catalogue) -/
+def objTypes : List String := ["Verif::Pair", "Verif::Box", "Verif::Unit"]
+def isObjType (tn : String) : Bool := objTypes.contains tn
+
 def kindOfTypeName (tn : String) : Option Kind := Kind.all.find? (fun k => k.typeName == tn)
 
 /-- `px.New(ctx, ParseTypeValue(tn), str)` for the leaf types (the codecs are parameters: decoding is assumed to invert
@@ -514,7 +547,15 @@ def convert : V → DS → Except DErr (V × DS)
               | .error e => .error e
               | .ok r => .ok (r, { memo := (id, r) :: ds.memo, next := ds.next + 1 })
             | some (.hash _ _) => .error .unmodelled
-            | none => .error .unmodelled
+            | none =>
+              -- pcoreTypeHashToValue with the hash minus `__ptype` as named arguments: px.New(type, args)
+              if isObjType tn then
+                match convAttrs es { ds with next := ds.next + 1 } with
+                | .error e => .error e
+                | .ok (as', ds') =>
+                  let r := V.obj ds.next tn "" as'
+                  .ok (r, { ds' with memo := (id, r) :: ds'.memo })
+              else .error .unmodelled
             | some _ => .error .badValue
         | _ => .error .badType
       | none =>
@@ -565,6 +606,22 @@ def convPVSens : List (V × V) → DS → Except DErr (V × DS)
     if k.isKey "__pvalue" && !hasKey "__pvalue" es then convert v ds
     else convPVSens es ds
 
+/-- `hash.RejectPairs(key == "__ptype")` converted: the named arguments of the object -/
+def convAttrs : List (V × V) → DS → Except DErr (List (String × V) × DS)
+  | [], ds => .ok ([], ds)
+  | (k, v) :: es, ds =>
+    match k with
+    | .str s =>
+      if s = "__ptype" then convAttrs es ds
+      else
+        match convert v ds with
+        | .error e => .error e
+        | .ok (v', ds1) =>
+          match convAttrs es ds1 with
+          | .error e => .error e
+          | .ok (as', ds2) => .ok ((s, v') :: as', ds2)
+    | _ => .error .badValue
+
 def convFlat : List V → DS → Except DErr (List (V × V) × DS)
   | [], ds => .ok ([], ds)
   | [_], _ => .error .badValue
@@ -598,18 +655,20 @@ def deserialize (e : Ev) : Except Err V :=
 inductive D where
   | undef | dflt | bool (b : Bool) | int (i : Int) | flt (bits : Nat) | str (s : String)
   | bin (bs : List UInt8) | leaf (k : Kind) (enc : String) | sens (d : D)
-  | arr (ds : List D) | hash (es : List (D × D))
+  | arr (ds : List D) | hash (es : List (D × D)) | obj (tn : String) (attrs : List (String × D))
   deriving Repr, Inhabited
 
 mutual
 def V.abs : V → D
   | .undef => .undef | .dflt => .dflt | .bool b => .bool b | .int i => .int i | .flt f => .flt f | .str s => .str s
   | .bin _ bs => .bin bs | .leaf _ k enc _ => .leaf k.canon enc | .sens _ v => .sens v.abs
-  | .arr _ vs => .arr (absList vs) | .hash _ es => .hash (absPairs es)
+  | .arr _ vs => .arr (absList vs) | .hash _ es => .hash (absPairs es) | .obj _ tn _ as => .obj tn (absAttrs as)
 def absList : List V → List D
   | [] => [] | v :: vs => v.abs :: absList vs
 def absPairs : List (V × V) → List (D × D)
   | [] => [] | (k, v) :: es => (k.abs, v.abs) :: absPairs es
+def absAttrs : List (String × V) → List (String × D)
+  | [] => [] | (k, v) :: as => (k, v.abs) :: absAttrs as
 end
 
 end Pcore.Ser
